@@ -1,7 +1,10 @@
 package utils
 
 func Int64Pow(base, exp int64) int64 {
-	if base == 0 || exp <= 0 {
+	if exp == 0 {
+		return 1
+	}
+	if base == 0 || exp < 0 {
 		return 0
 	}
 	if base == 1 {
